@@ -165,6 +165,11 @@ pub fn run_ex(a: &Args) {
             std::fs::write(&path, &inst.file).unwrap();
             // widths {1,2,3,default} x threads {1,2,4}: two combinations per instance, all of them over the run
             let combos: Vec<(Option<usize>, usize)> = vec![([Some(1), Some(2), Some(3), None][k % 4], [1usize, 2, 4][k % 3]), ([Some(1), Some(2), Some(3), None][(k + 1 + k / 4) % 4], [1usize, 2, 4][(k + 1) % 3])];
+            // a generator may ask for a particular width (tag `force_w<k>`): families built around a width-specific mechanism
+            let combos: Vec<(Option<usize>, usize)> = match inst.tags.iter().find_map(|t| t.strip_prefix("force_w").and_then(|x| x.parse::<usize>().ok())) {
+                Some(fw) => vec![(Some(fw), combos[0].1), (combos[1].0, combos[1].1)],
+                None => combos,
+            };
             for (w, t) in combos {
                 let t = if ex.threads { t } else { 1 };
                 let res = run_bin(&bin, &(ex.args)(&path, w, t), 60);
